@@ -780,6 +780,11 @@ func (s *Server) startIPCPNegotiation(session *Session) {
 
 // handleIPCP handles IPCP packets
 func (s *Server) handleIPCP(session *Session, data []byte) {
+	// No IP-layer negotiation before the authentication phase succeeded
+	if !session.Authenticated {
+		return
+	}
+
 	pkt, err := ParseLCPPacket(data)
 	if err != nil {
 		return
